@@ -72,6 +72,7 @@ struct ResetRun : NodeEnv {
         const std::string &k = o.k; int rc = 0; w.cur = sl; CO_NODE *n = w.N(sl);
         if (k == "tick") w.tick(sl, (uint64_t)o.arg(0));
         else if (k == "sendfail") { w.s[sl].sendFail = (int)(o.arg(0) % 4); cov.hit("F5-can-send-failure"); }                                  // the next n frames are refused by the CAN driver
+        else if (k == "isr") { int n = (int)(o.arg(0) % 400) + 1; for (int i = 0; i < n; i++) w.isr(sl); cov.hit("F13-ticks-served-not-processed"); }   // timer processing lags: elapsed events wait for COTmrProcess
         else if (k == "lag") { int n = (int)(o.arg(0) % 6) + 1; for (int i = 0; i < n; i++) w.isr(sl); w.process(sl); cov.hit("F13-deferred-processing"); }   // n ticks served, processed late in one go
         else if (k == "frame") { Frame f((uint32_t)o.arg(0), (uint8_t)o.arg(1, 8), o.b); if (f.id == 0x600) f.id = 0x600u + n->NodeId; /* SDO requests follow the node id (LSS may have changed it) */ w.rx(sl, f); w.canproc(sl); cov.frames_in++; }
         else if (k == "emcy") { if (o.arg(0)) COEmcySet(&n->Emcy, (uint8_t)(o.arg(1) % 3), nullptr); else COEmcyClr(&n->Emcy, (uint8_t)(o.arg(1) % 3)); }
@@ -175,6 +176,7 @@ Plan gen_reset(Rng &r, bool thorough) {
     Plan p; p.cfg["syncprod"] = r.below(2); p.cfg["synccycle"] = r.pick<int64_t>({2000, 5000, 10000}); p.cfg["cons0"] = r.pick<int64_t>({0, 10, 20}); p.cfg["cons1"] = r.pick<int64_t>({0, 15}); p.cfg["hb"] = r.pick<int64_t>({0, 5, 10}); p.cfg["inh0"] = r.pick<int64_t>({0, 30, 100}); p.cfg["ev0"] = r.pick<int64_t>({0, 7, 20});
     if (r.chance(4, 5)) p.ops.push_back(Op("frame", {0, 2}, {1, 0}));
     int h = (int)r.range(0, thorough ? 60 : 30); for (int i = 0; i < h; i++) gen_traffic(r, p.ops, false);
+    if (r.chance(1, 3)) p.ops.push_back(Op("isr", {r.chance(1, 2) ? r.range(0, 10) : r.range(50, 399)}));   // the reset request meets timers that have elapsed but were not processed yet
     p.ops.push_back(Op("reset", {(int64_t)r.chance(1, 4)}));
     int q = (int)r.range(3, thorough ? 50 : 25); for (int i = 0; i < q; i++) { if (i == 1 && r.chance(2, 3)) p.ops.push_back(Op("frame", {0, 2}, {1, 0})); gen_traffic(r, p.ops, true); }
     p.ops.push_back(Op("tick", {120}));
